@@ -175,21 +175,32 @@ class C14(Prop):
         raise RTAMTException."""
         v = Verdict()
         v.nontrivial = True
-        v.info['class:constant-bound-used-twice'] = 1
+        v.info['class:' + case.get('cls', 'constant-bound-used-twice')] = 1
         err, old = io.StringIO(), sys.stderr
         sys.stderr = err
         try:
             try:
                 s = drive.build_spec(case['api'], {'text': case['text'], 'vars': ['x', 'y'], 'consts': case['consts']})
+            except Exception as e:
+                v.skip = 'declarations refused (%s)' % type(e).__name__
+                return v
+            try:
+                if case.get('unit') is not None:
+                    # (a default unit the library does not know: it may refuse the assignment or the parse() -
+                    # with RTAMTException)
+                    s.unit = case['unit']
                 s.parse()
             except Exception as e:
                 if not drive.is_rtamt_exc(e):
-                    v.bad('parse-raises:' + type(e).__name__, 'parse() of %r raised %s' % (case['text'], type(e).__name__))
+                    v.bad('parse-raises:' + type(e).__name__, 'parse() of %r (constants %s, default unit %r) raised %s: %s' % (
+                        case['text'], case['consts'], case.get('unit'), type(e).__name__, e))
                 return v
         finally:
             sys.stderr = old
-        v.bad('accepted-bad-interval', 'parse() accepted %r with %s: the second interval has begin > end' % (
-            case['text'], case['consts']))
+        if case.get('accept_ok'):
+            return v
+        v.bad('accepted-bad-interval', 'parse() accepted %r with %s: %s' % (
+            case['text'], case['consts'], case.get('why', 'the second interval has begin > end')))
         return v
 
     def judge(self, case):
@@ -458,6 +469,25 @@ class C14(Prop):
                                           ('historically[0:T s]', 'once[1 s:T ms]'), ('eventually[0:T]', 'always[1 s:T ms]')):
                         self.check(ctx, {'type': 'expect', 'api': api, 'consts': [('T', 'float', T)],
                                          'text': 'out = ((%s (x >= 1)) and (%s (y >= 1)))' % (first, second)})
+            # bound constants declared through the API can carry a sign, which the grammar cannot write: an interval
+            # whose begin (or both bounds) is negative violates 0 <= begin and must be rejected
+            for api in ('dt', 'ct', 'dt_off', 'dt_on'):
+                for op in ('always', 'once', 'eventually', 'historically', 'since', 'until', 'unless'):
+                    for (cv, ct, ivl) in (('-3', 'int', '[T:2]'), ('-0.5', 'float', '[T:2]'), ('-2', 'float', '[T:T]'),
+                                          ('-1', 'int', '[T s:2 s]'), ('-4', 'int', '[T:1 s]')):
+                        body = '(x >= 1) %s%s (y <= 3)' % (op, ivl) if op in ('since', 'until', 'unless') else \
+                            '%s%s (x >= 1)' % (op, ivl)
+                        self.check(ctx, {'type': 'expect', 'api': api, 'consts': [('T', ct, cv)], 'text': 'out = ' + body,
+                                         'cls': 'negative-bound-constant', 'why': 'the lower bound is negative'})
+            # a default unit that the library does not know (`spec.unit = 'ps'`; ps is a unit of the lexer): the
+            # assignment or the parse() of a text with an interval may be refused - with RTAMTException
+            for api in ('dt', 'ct', 'dt_off', 'ct_on'):
+                for unit in ('ps', 'fs', 'min', 'h', 'S', 'sec', '', 'Ms', 'm s', 1, None):
+                    for body in ('always[1:2] (x >= 1)', 'once[0:3s] (x >= 1)', '(x >= 1) since[1ms:2] (y >= 1)', '(x >= 1)'):
+                        if unit is None:
+                            continue
+                        self.check(ctx, {'type': 'expect', 'api': api, 'consts': [], 'text': 'out = ' + body, 'unit': unit,
+                                         'cls': 'unknown-default-unit', 'accept_ok': True})
             for api in ('dt', 'ct', 'dt_off', 'ct_off', 'dt_on', 'ct_on'):
                 for how in ('api', 'text'):
                     for op in ('always', 'once', 'until', 'historically'):
